@@ -55,7 +55,7 @@ def run_case(case):
     for cfg in case["configs"]:
         tl = X.build_instance(dendropy, inst)          # fresh objects for every round trip
         evs.append(X.event_for(dendropy, tl, cfg["schema"], cfg["o"], cfg.get("api", "treelist"), cfg.get("route", "string"),
-                               tmpdir=case.get("tmpdir")))
+                               tmpdir=case.get("tmpdir"), pad=cfg.get("pad")))
     if case.get("tok"):
         labels = list(case["tok"])
         combos = sorted(set((c["o"]["uu"], c["o"]["ps"], c["o"]["pu"]) for c in case["configs"] if c["schema"] != "nexml"))
@@ -143,6 +143,54 @@ def gen_model_cases(states):
         if len(inst["trees"]) == 1 and k % 3 == 0:
             cfg["api"] = "tree"
         cases.append({"kind": "tree-model", "dom": m["dom"], "inst": inst, "configs": [cfg]})
+    return cases
+
+
+# labels whose written form is delicate for a tokenizer: quotes that get doubled, comment brackets, underscores,
+# spaces, punctuation inside quotes
+DELICATE_TAXA = ["it's", "'", "a''b", "x[y", "p]q[", "u_v", "s t", "(r)", 'd"q', "Pq1"]
+DELICATE_INTERNAL = ["o'k", "[", "_'_"]
+BOUNDARIES_QUICK = (1024, 2048, 4096, 8192)
+BOUNDARIES_THOROUGH = (1024, 2048, 4096, 8192, 16384, 65536)
+
+
+def sweep_instance(ntrees):
+    n = len(DELICATE_TAXA)
+    trees = []
+    for t in range(ntrees):
+        idx = list(range(n)) if t % 2 == 0 else list(range(n - 1, -1, -1))
+        inner1 = [DELICATE_INTERNAL[0], None, 0.5, [[None, idx[0], 1, []], [None, idx[1], 2.5e-07, []], [None, idx[2], None, []]]]
+        inner2 = [DELICATE_INTERNAL[1], None, 3, [[None, idx[3], 1e-10, []], [None, idx[4], 2, []]]]
+        inner3 = [DELICATE_INTERNAL[2], None, None, [[None, idx[5], 7.25, []], inner2, [None, idx[6], 0, []]]]
+        root = [None, None, None, [inner1, inner3, [None, idx[7], 1, []], [None, idx[8], 6.02e+23, []], [None, idx[9], 1, []]]]
+        trees.append({"nested": root, "rooted": [1, 0][t % 2], "weight": None})
+    return {"ns": list(DELICATE_TAXA), "trees": trees}
+
+
+def gen_sweep_cases(quick):
+    """Padding sweep: the same delicate document preceded by a comment of every length n such that each of its
+    characters falls on each side of each power-of-two stream offset (block boundaries of a buffered reader).
+    The pad is produced by the writers themselves (tree comment for Newick, file comment for NEXUS)."""
+    import dendropy
+    cases = []
+    combos = [COMBOS[0], COMBOS[3]] if quick else COMBOS
+    bounds = BOUNDARIES_QUICK if quick else BOUNDARIES_THOROUGH
+    plans = [("newick", "tree", 2, False), ("nexus", "file", 1, False)]
+    if not quick:
+        plans += [("nexus", "file", 2, True), ("nexus", "tree", 2, False)]
+    for schema, where, ntrees, translate in plans:
+        inst = sweep_instance(ntrees)
+        for (uu, ps, pu) in combos:
+            o = X.opts(uu=uu, ps=ps, pu=pu, translate=translate)
+            pad0 = {where: 0, "node_comments": True}
+            tl = X.build_instance(dendropy, inst)
+            X.apply_pad(tl, pad0)
+            len0 = len(tl.as_string(schema=schema, **X.writer_kwargs(schema, o, pad0)))     # a length, nothing else
+            for b in bounds:
+                ns_ = list(range(max(0, b - len0 - 8), b + 9))
+                for lo in range(0, len(ns_), 48):
+                    cfgs = [{"schema": schema, "o": o, "pad": {where: n, "node_comments": True}} for n in ns_[lo:lo + 48]]
+                    cases.append({"kind": "pad-sweep", "boundary": b, "where": where, "inst": inst, "configs": cfgs})
     return cases
 
 
@@ -255,7 +303,7 @@ def _nontrivial(ctx, driven):
             labs = e["src"]["ns"] + [l for g in e["src"]["trees"] for l in g["lab"] if l]
             special = any(not (48 <= c <= 57 or 65 <= c <= 90 or 97 <= c <= 122) for l in labs for c in l)
             if special or len(e["src"]["trees"]) != 1:
-                ctx.add_nontrivial([e["schema"], e["o"], e["api"], sorted(labs), [g["kids"] for g in e["src"]["trees"]],
+                ctx.add_nontrivial([e["schema"], e["o"], e["api"], e.get("pad", -1), sorted(labs), [g["kids"] for g in e["src"]["trees"]],
                                     [g["rooted"] for g in e["src"]["trees"]], [[bool(x) for x in g["len"]] for g in e["src"]["trees"]]])
 
 
@@ -270,6 +318,9 @@ def run(ctx):
                               env=JENV, heap="4g"),
             lambda: ctx.model("MC_NexusToken", "AsShipped_NexusToken.cfg", expect_violation="TreeLabelOneToken", count=False, workers=1,
                               env=JENV, heap="2g")]
+    jobs.append(lambda: ctx.model("MC_NexusTokenOffset", "MC_NexusTokenOffset_%s.cfg" % tier, workers=4, env=JENV, heap="3g", timeout=6000))
+    jobs.append(lambda: ctx.model("MC_NexusTokenOffset", "BlockLookahead_NexusToken.cfg", expect_violation="OffsetIndependentTree",
+                                  count=False, workers=1, env=JENV, heap="2g"))
     for name in ("protect", "quoted", "attr", "len", "empty"):
         jobs.append(lambda name=name: ctx.model("MC_NewickRoundTrip", "AsShipped_NewickRoundTrip_%s.cfg" % name,
                                                 expect_violation="RoundTripHolds", count=False, workers=1, env=JENV, heap="2g"))
@@ -301,6 +352,10 @@ def run(ctx):
     n_char = len(cases) - n_tok
     cases += gen_model_cases(tree_states)
     n_tree = len(cases) - n_tok - n_char
+    sweep = gen_sweep_cases(q)
+    n_sweep = len(sweep)
+    n_sweep_rt = sum(len(c["configs"]) for c in sweep)
+    cases += sweep
     rng = random.Random(ctx.seed * 1000003 + 2)
     nrand = 500 if q else 10000
     tmpdir = os.path.join(ctx.work, "files")
@@ -331,13 +386,17 @@ def run(ctx):
                 "number-like and case-variant labels in every order with/without TRANSLATE and internal taxa, punctuation labels x option "
                 "pairs, lists of 0..n trees x rooting x weights x suppress_rooting+reader rooting); (4) %d seeded random instances "
                 "(labels <= 12 characters from the full alphabet, trees <= 10 leaves, lists of 0-4 trees, random consistent options, "
-                "Tree and TreeList API, string and file routes).  distinct_nontrivial = distinct (schema, options, api, label set, shapes, "
+                "Tree and TreeList API, string and file routes); (5) a padding sweep (see pad_sweep) and, on the model, MC_NexusTokenOffset: "
+                "token identity is independent of the stream offset for every pad length.  distinct_nontrivial = distinct (schema, options, api, label set, shapes, "
                 "rooting states, length-presence pattern) among round trips with a non-alphanumeric label or a list length other than 1"
                 % (2 if q else 3, n_tok, len(X.NONASCII_SAMPLE), n_char, n_tree, nrand))
     ctx.exhaustive = True
     ctx.extra["exhaustive_domain"] = ("the state spaces of MC_NexusToken_%s and MC_NewickRoundTrip_%s (every state replayed on the real "
                                       "library), and every printable ASCII character + TAB in 4 contexts x 2 roles" % (tier, tier))
-    ctx.extra["cases_by_kind"] = {"token-model": n_tok, "char-context": n_char, "tree-model": n_tree, "random": nrand}
+    ctx.extra["cases_by_kind"] = {"token-model": n_tok, "char-context": n_char, "tree-model": n_tree, "pad-sweep": n_sweep, "random": nrand}
+    ctx.extra["pad_sweep"] = ("%d round trips: delicate labels %r / %r, document preceded by a writer-produced comment of every length that puts "
+                              "each character of the document on both sides of the stream offsets %r"
+                              % (n_sweep_rt, DELICATE_TAXA, DELICATE_INTERNAL, list(BOUNDARIES_QUICK if q else BOUNDARIES_THOROUGH)))
     ctx.assumptions.append("distinctness of labels up to letter case is established by the driver with str.lower/upper/casefold "
                            "(TLC re-checks it for ASCII letters only); non-ASCII letters are a sample of %d characters"
                            % len(X.NONASCII_SAMPLE))
